@@ -13,7 +13,9 @@ CHECKS = {
                 "transaction protocol of database/tx.go, against an ideal store. TLC proves on the design that every read of every "
                 "behaviour of every composition returns what the ideal store allows (exhaustive up to MaxLen calls over 2 ids, "
                 "2 blobs; quick: the 20 semantic stacks with up to 2 of cache/outbox/ec, 4 calls; thorough: all 32, 6 calls). TLC then enumerates every (stack, size class relative to the boundaries present "
-                "in that stack, content class) and generates call programs (nil / own / caller's transaction, commit, rollback, "
+                "in that stack, content class - zeros / random / repeating, and content that begins with a valid header of a framing "
+                "layer of the stack itself: compression header none/gzip/zstd, encryption part header + tink header, EC shard + frame "
+                "header, each taken from what the real layer writes -) and generates call programs (nil / own / caller's transaction, commit, rollback, "
                 "outbox drain or not): weighted random walks of the model plus, by breadth-first search over the model states, a "
                 "shortest program for every branch of every layer function (cache hit/fill/miss, outbox entry over present/absent "
                 "inner content, pending SQL rows, ...), and programs are assigned so that these branches are covered evenly; the Go driver executes them on the REAL stacks built from config JSON over sqlite and logs "
@@ -151,7 +153,9 @@ def run(ctx):
                 if gc:
                     chosen.append(choose_in(semk, gc, grp))
         else:
-            chosen = [choose(semk, reading)] + [choose(semk, cand) for _ in range(per - 1)]
+            # (content that imitates a layer's own framing: one program, the one that reads b1 back)
+            kper = 1 if c["content"].startswith("like-") else per
+            chosen = [choose(semk, reading)] + [choose(semk, cand) for _ in range(kper - 1)]
         for x in chosen:
             k2 = dict(c)
             k2["case"] = len(cases) + 1
